@@ -418,6 +418,26 @@ impl Meta {
                 ctx.violation("new-keeps-lines", "reset:new-listing", "NEW left lines in the listing", &script.join("\n"));
                 return;
             }
+            {
+                // NEW is CLEAR plus an empty listing: the probe must show the start-up state
+                let pr = s.rt.verif_probe();
+                let fresh = Session::new().rt.verif_probe();
+                ctx.count("new_probes");
+                if !pr.vars.is_empty() || !pr.dims.is_empty() || pr.types != fresh.types || !pr.functions.is_empty() || !pr.stack.is_empty()
+                    || pr.data_pos != 0 || pr.cont != "Stopped" || pr.tron
+                {
+                    ctx.violation(
+                        "new-incomplete",
+                        "reset:new",
+                        &format!(
+                            "after NEW: vars={:?} dims={:?} types_default={} functions={:?} stack={:?} data_pos={} cont={} tron={}",
+                            pr.vars, pr.dims, pr.types == fresh.types, pr.functions, pr.stack, pr.data_pos, pr.cont, pr.tron
+                        ),
+                        &script.join("\n"),
+                    );
+                    return;
+                }
+            }
             for l in &l2 {
                 s.enter(l);
                 s.drain(16);
@@ -433,7 +453,7 @@ impl Meta {
             let fresh = Session::new().rt.verif_probe();
             ctx.count("clear_probes");
             if !pr.vars.is_empty() || !pr.dims.is_empty() || pr.types != fresh.types || !pr.functions.is_empty()
-                || !pr.stack.is_empty() || pr.data_pos != 0
+                || !pr.stack.is_empty() || pr.data_pos != 0 || pr.cont != "Stopped"
             {
                 ctx.violation(
                     "clear-incomplete",
